@@ -269,6 +269,9 @@ type c13Group struct {
 	rdvCh   chan struct{}
 	timeouts int32
 	batches, batchesMet int // batches of >= 2 messages / those in which the rendezvous was complete
+	rt       *hookrt.Runtime
+	batchKey string
+	rules    []*hookrt.ParkRule
 }
 
 func c13gid() int64 {
@@ -298,25 +301,46 @@ func (g *c13Group) current(what string) *c13Case {
 	return c
 }
 
-func (g *c13Group) arrive(c *c13Case, wait bool) {
+// count registers the arrival of c at the rendezvous; it reports the batch key when this
+// arrival completed it (the caller then stamps "c13.met", which releases the goroutines parked
+// by the hook rule at poison.default_filter)
+func (g *c13Group) count(c *c13Case) (first bool, met string, ch chan struct{}) {
 	c.mu.Lock()
-	first := !c.arrived
+	first = !c.arrived
 	c.arrived = true
 	c.mu.Unlock()
+	g.mu.Lock()
+	defer g.mu.Unlock()
+	if first {
+		g.rdvN++
+		if g.rdvN >= g.want {
+			select {
+			case <-g.rdvCh:
+			default:
+				close(g.rdvCh)
+				met = g.batchKey
+			}
+		}
+	}
+	return first, met, g.rdvCh
+}
+
+// arriveInHook runs inside the hook runtime's callback (its lock is held): it must not stamp
+// synchronously and does not wait itself - the park rule does
+func (g *c13Group) arriveInHook(c *c13Case) {
+	if _, met, _ := g.count(c); met != "" {
+		go g.rt.Stamp("c13.met", met)
+	}
+}
+
+func (g *c13Group) arrive(c *c13Case, wait bool) {
+	first, met, ch := g.count(c)
+	if met != "" {
+		g.rt.Stamp("c13.met", met)
+	}
 	if !first {
 		return
 	}
-	g.mu.Lock()
-	g.rdvN++
-	if g.rdvN >= g.want {
-		select {
-		case <-g.rdvCh:
-		default:
-			close(g.rdvCh)
-		}
-	}
-	ch := g.rdvCh
-	g.mu.Unlock()
 	if wait {
 		select {
 		case <-ch:
@@ -713,7 +737,19 @@ func (g *c13Group) run(rt *hookrt.Runtime) error {
 	rt.Reset()
 	rt.Perturb("router.handle.before_publish", 0.3)
 	rt.Perturb("router.handle.before_settle", 0.3)
+	g.rt = rt
 	rt.Filter(func(point string, keys []string) bool {
+		if point == "poison.default_filter" {
+			// the no-filter path's parking point between the handler's return and the salvage:
+			// count the arrival here, the park rule of the batch holds the goroutine
+			g.mu.Lock()
+			c := g.byGid[c13gid()]
+			g.mu.Unlock()
+			if c != nil {
+				g.arriveInHook(c)
+			}
+			return true
+		}
 		if point == "message.ack.unlock" || point == "message.nack.unlock" {
 			if len(keys) > 0 {
 				if c, ok := g.byID[keys[0]]; ok {
@@ -809,7 +845,12 @@ func (g *c13Group) run(rt *hookrt.Runtime) error {
 		g.mu.Lock()
 		g.inside, g.want, g.release = 0, n, make(chan struct{})
 		g.rdvN, g.rdvCh = 0, make(chan struct{})
+		g.batchKey = fmt.Sprintf("batch%d", b)
+		key := g.batchKey
 		g.mu.Unlock()
+		if n > 1 {
+			g.rules = append(g.rules, rt.AddRule(&hookrt.ParkRule{Point: "poison.default_filter", Until: "c13.met", UntilKeys: []string{key}, Timeout: 400 * time.Millisecond}))
+		}
 		var wg sync.WaitGroup
 		for _, c := range batch {
 			c.Flight = n
@@ -846,6 +887,7 @@ func (g *c13Group) run(rt *hookrt.Runtime) error {
 			}(c)
 		}
 		wg.Wait()
+		rt.Stamp("c13.met", key) // makes the batch's rule inert whatever happened
 		if n > 1 {
 			g.mu.Lock()
 			g.batches++
@@ -1013,7 +1055,7 @@ func cmdC13(args []string) error {
 	groups := c13Generate(rng, *tier)
 	var all []*c13Case
 	var stray []string
-	timeouts, batches, batchesMet := 0, 0, 0
+	timeouts, batches, batchesMet, hookParked, hookTimedOut := 0, 0, 0, 0, 0
 	for _, g := range groups {
 		g.in = in
 		if err := g.run(rt); err != nil {
@@ -1024,6 +1066,10 @@ func cmdC13(args []string) error {
 		timeouts += int(g.timeouts)
 		batches += g.batches
 		batchesMet += g.batchesMet
+		for _, r := range g.rules {
+			hookParked += r.Parked
+			hookTimedOut += r.TimedOut
+		}
 	}
 	// the constructors
 	type ctor struct {
@@ -1046,7 +1092,7 @@ func cmdC13(args []string) error {
 		}
 	}
 	return writeJSON(*out, map[string]interface{}{"cases": all, "ctors": ctors, "stray": stray, "timeouts": timeouts, "strings": in.Tab,
-		"batches": batches, "batches_met": batchesMet})
+		"batches": batches, "batches_met": batchesMet, "hook_parked": hookParked, "hook_timed_out": hookTimedOut})
 }
 
 func init() { register("c13", cmdC13) }
